@@ -1,5 +1,5 @@
 //! module name -> binder
-use crate::abi::AbiBinder;
+use crate::abi::{AbiBinder, AbiOwnBinder};
 use crate::common::Obs;
 use crate::gas::GasBinder;
 use crate::gateway::GatewayBinder;
@@ -15,6 +15,7 @@ pub enum B {
     Operators(OperatorsBinder),
     Upgrade(UpgradeBinder),
     Abi(AbiBinder),
+    AbiOwn(AbiOwnBinder),
 }
 
 impl B {
@@ -26,6 +27,7 @@ impl B {
             B::Operators(b) => b.exec(act),
             B::Upgrade(b) => b.exec(act),
             B::Abi(b) => b.exec(act),
+            B::AbiOwn(b) => b.exec(act),
         }
     }
     pub fn project(&mut self) -> J {
@@ -36,6 +38,7 @@ impl B {
             B::Operators(b) => b.project(),
             B::Upgrade(b) => b.project(),
             B::Abi(b) => b.project(),
+            B::AbiOwn(b) => b.project(),
         }
     }
 }
@@ -48,6 +51,7 @@ pub fn make_binder(module: &str, inst: &J, init: &J) -> B {
         "Operators" => B::Operators(OperatorsBinder::new(inst, init)),
         "Upgrade" => B::Upgrade(UpgradeBinder::new(inst, init)),
         "Abi" => B::Abi(AbiBinder::new(inst, init)),
+        "AbiOwn" => B::AbiOwn(AbiOwnBinder::new(inst, init)),
         m => panic!("unknown module {m}"),
     }
 }
